@@ -209,14 +209,21 @@ class CanonicalizePreservesValue(Harness):
     _concrete = None
     PREFIXES = [('deci', 'x'), ('d', 'x'), ('deca', 'y'), ('da', 'y')]
     STEMS = ['at', 't', 'a', 'ts']
-    QUERIES = ['dat', 'dt', 'da', 'dats', 'dts', 'decit', 'decaat', 'at', 'ats', 'daa', 'dda', 'atss', 'tss', 'dtss', 'tsss']
+    QUERIES = ['dat', 'dt', 'da', 'dats', 'dts', 'decit', 'decaat', 'at', 'ats', 'daa', 'dda', 'atss', 'tss', 'dtss', 'tsss', 'ta', 'dta', 'tas']
+    # an alias (a unit whose definition is another unit's name) and quantity-like entries: the loader files a quantity
+    # `name ? unit` under `definitions` but not under `units`, so `lookup` never sees it; their names here also have a
+    # prefix+unit / plural reading (as `mass` = m+as+s has in the bundled file)
+    ALIASES = [('ta', 't')]
+    QDEFS = [('dat', 'a'), ('ats', 't'), ('dt', 'at')]
 
     def __init__(self):
         self.describe = ('canonicalize then lookup vs lookup for %d names over stems %s (each present or not) and prefixes %s with '
                          'equal values for the long/short pairs') % (len(self.QUERIES), self.STEMS, [p for p, _ in self.PREFIXES])
-        self.assumptions = ['database well-formedness: every unit has a definition (non-alias here), long and short spellings of a prefix '
-                            'carry the same value, no base-unit long names / aliases in this universe']
-        self.bounds = ['universe: stems %s, prefix list %s in this order' % (self.STEMS, self.PREFIXES)]
+        self.assumptions = ['database well-formedness as the loader establishes it: every unit has a definition, an alias has the value of its '
+                            'target, a quantity entry sits in `definitions` only and only when no unit has its name, long and short spellings of a '
+                            'prefix carry the same value; no base-unit long names in this universe']
+        self.bounds = ['universe: stems %s, aliases %s, quantity entries %s (each present or not), prefix list %s in this order' % (
+            self.STEMS, self.ALIASES, self.QDEFS, self.PREFIXES)]
         self.expect_classes = ['canonical', 'no-canonical-name']
 
     def build(self, ex, I):
@@ -230,6 +237,16 @@ class CanonicalizePreservesValue(Harness):
             units.ent[n] = [n, p, number(rational(v), dim({'u_' + n: (True, 1)}))]
             defs.ent[n] = [n, p, expr_const(ex, rational(Fraction(1)))]
             info[n] = (p, v)
+        for n, target in self.ALIASES:
+            p = I.bool('unit_%s' % n)
+            tp, tv = info[target]
+            ex.assume(z3.Implies(p, tp))
+            units.ent[n] = [n, p, number(rational(tv), dim({'u_' + target: (True, 1)}))]
+            defs.ent[n] = [n, p, expr_unit(ex, target)]
+        for n, target in self.QDEFS:
+            p = I.bool('quantity_%s' % n)
+            assert n not in units.ent
+            defs.ent[n] = [n, p, expr_unit(ex, target)]
         pv = {'x': I.real('prefix_x'), 'y': I.real('prefix_y')}
         ex.assume(z3.And(pv['x'] != 0, pv['y'] != 0, pv['x'] != pv['y']))
         plist = Arr([Tup([p, rational(pv[k])]) for p, k in self.PREFIXES])
@@ -271,7 +288,7 @@ class CanonicalizePreservesValue(Harness):
         cn = ctx.get('canon')
         if not isinstance(cn, str):
             return [('canonical name is a concrete string', False)]
-        obs = [('canonical name `%s` of `%s` resolves whenever the name does' % (cn, ctx['q']), l1.variant == l2.variant)]
+        obs = [('canonical name `%s` of `%s` resolves whenever the name does' % (cn, ctx['q']), l1.variant != 1 or l2.variant == 1)]
         if l1.variant == 1 and l2.variant == 1:
             v1, d1 = number_parts(l1.fields[0])
             v2, d2 = number_parts(l2.fields[0])
@@ -288,18 +305,64 @@ class CanonicalizePreservesValue(Harness):
     NAMES = ['dat', 'dau', 'daA', 'dasb', 'daustbl', 'yoctodecillion', 'mm', 'km', 'dam', 'das', 'kg', 'ft', 'micron', 'feet', 'kft', 'mins', 'ks',
              'mss', 'kss', 'gausss', 'kilogausss', 'inchess', 'sss']
 
+    def names(self):
+        # every quantity the bundled file defines (`name ? expr`), with and without a plural s, joins the fixed list
+        import os
+        from checker.build import REPO
+        out = list(self.NAMES)
+        try:
+            for line in open(os.path.join(REPO, 'core', 'definitions.units'), encoding='utf-8'):
+                m = _re.match(r'^(\S+)\s+\?', line)
+                if m:
+                    out += [m.group(1), m.group(1) + 's']
+        except OSError:
+            pass
+        return out
+
+    def model_db(self, inputs):
+        def val(x):
+            return str(x) if x is not None else '1'
+        units = {n: val(inputs.get('val_%s' % n)) for n in self.STEMS if inputs.get('unit_%s' % n)}
+        defs = {n: None for n in units}
+        dims = {}
+        for n, t in self.ALIASES:
+            if inputs.get('unit_%s' % n):
+                units[n] = val(inputs.get('val_%s' % t))
+                dims[n] = t
+                defs[n] = t
+        for n, t in self.QDEFS:
+            if inputs.get('quantity_%s' % n):
+                defs[n] = t
+        pv = {'x': val(inputs.get('prefix_x')), 'y': val(inputs.get('prefix_y'))}
+        return {'bases': [], 'units': units, 'unit_dims': dims, 'definitions': defs, 'prefixes': [[p, pv[k]] for p, k in self.PREFIXES]}
+
     def native(self, inputs, label):
-        # the same question on the bundled database, for the names that split in two ways there (d/da, y/yocto) and ordinary ones
-        return [{'mode': 'canon_roundtrip', 'name': n} for n in self.NAMES]
+        # the database the solver's model describes, built natively (Registry's fields are public); then the same question
+        # on the bundled database, for the names that split in two ways there (d/da, y/yocto), ordinary ones, and the
+        # quantity names
+        return ([dict(self.model_db(inputs), mode='lookup_seq', names=[inputs['q']])]
+                + [{'mode': 'canon_roundtrip', 'name': n} for n in self.names()])
+
+    @staticmethod
+    def _differs(o):
+        return o.get('canonicalize') is not None and o.get('lookup') is not None and o.get('lookup') != o.get('lookup_canon')
 
     def judge(self, inputs, label, obs):
         bad = []
-        for n, o in zip(self.NAMES, obs):
+        o = obs[0]
+        if o.get('outcome') != 'ok':
+            bad.append('model database: %s %s' % (o.get('outcome'), o.get('panic', '')))
+        else:
+            r = o['lookups'][0]
+            if self._differs(r):
+                bad.append('on database %s: `%s` is %s, its canonical name `%s` is %s' % (
+                    json.dumps(self.model_db(inputs)), r['name'], json.dumps(r['lookup']), r['canonicalize'], json.dumps(r['lookup_canon'])))
+        for n, o in zip(self.names(), obs[1:]):
             if o.get('outcome') == 'panic':
-                bad.append('%s: panic %s' % (n, o.get('panic')))
-            elif o.get('canonicalize') is not None and o.get('lookup') != o.get('lookup_canon'):
-                bad.append('%s -> %s: %s vs %s' % (n, o.get('canonicalize'), o.get('lookup'), o.get('lookup_canon')))
-        return (bool(bad), '; '.join(bad) or 'bundled database: canonical names keep their values')
+                bad.append('bundled database: %s: panic %s' % (n, o.get('panic')))
+            elif self._differs(o):
+                bad.append('bundled database: %s -> %s: %s vs %s' % (n, o.get('canonicalize'), o.get('lookup'), o.get('lookup_canon')))
+        return (bool(bad), '; '.join(bad) or 'model database and bundled database: canonical names keep their values')
 
 
 def json_names(obs):
